@@ -850,13 +850,48 @@ fn c18_cell(run: &Run, cfg: &Cfg, alphabet: &[Op], depth: usize, ns: &[usize]) {
               r2.pinned.push(Live { h: None, m: *m, pat: *pat, needs_drop: false, owned: false, refs_delta: 0 });
             }
             let rem = r2.a.remaining() as u32;
-            for k in [1u32, rem, rem + 1, 33] {
+            // follow-ups rotate with the case: byte requests around the new end, and an aligned
+            // request that ends exactly on the new capacity
+            let exact_ab = {
+              let al = r2.a.allocated() as u64;
+              let start = align_up(al, 8);
+              if start + 8 <= want_cap as u64 { Some((want_cap as u64 - start - 8) as u32) } else { None }
+            };
+            let mut fops: Vec<Op> = if nn % 2 == 0 { vec![Op::B(Sz::N(1)), Op::B(Sz::N(rem)), Op::B(Sz::N(rem + 1)), Op::B(Sz::N(33))] } else { vec![] };
+            if nn % 2 == 1 {
+              if let Some(x) = exact_ab {
+                fops.push(Op::AB(U64, Sz::N(x)));
+              }
+              fops.push(Op::T(U64));
+              fops.push(Op::B(Sz::R));
+              fops.push(Op::B(Sz::N(1)));
+            }
+            for fop in fops {
               let mut v = vec![];
-              let _ = r2.step(Op::B(Sz::N(k)), O_SHADOW | O_FREELIST | O_ZERO | O_ERRSTATE, &mut v);
+              if r2.slots.len() >= MAX_SLOTS {
+                r2.pin(0);
+              }
+              let _ = r2.step(fop, O_SHADOW | O_FREELIST | O_ZERO | O_ERRSTATE | O_CAPALIGN, &mut v);
               run.trans(1);
               for x in v {
-                viol(run, "C18", &format!("after-truncate:{}", x.class), format!("[{:?} start {} history {} ; truncate({})] alloc_bytes({}): {}", cfg, st.name, word_str(&word), nn, k, x.msg), case.clone());
+                viol(run, "C18", &format!("after-truncate:{}", x.class), format!("[{:?} start {} history {} ; truncate({})] {}: {}", cfg, st.name, word_str(&word), nn, fop.short(), x.msg), case.clone());
               }
+            }
+            // a second truncate after these writes must again change nothing but the capacity
+            let pre2 = r2.a.snap(64);
+            let img2: Vec<u8> = r2.a.allocated_memory().to_vec();
+            let (mut arena2, path2) = r2.into_arena();
+            let n2 = want_cap + 40;
+            let res2 = arena2.truncate(n2);
+            run.eval(1);
+            let post2 = arena2.snap(64);
+            if res2.is_err() || post2 != pre2 || arena2.allocated_memory() != &img2[..] || arena2.capacity() != n2.max(pre2.allocated as usize) {
+              let at = arena2.allocated_memory().iter().zip(img2.iter()).position(|(a, b)| a != b);
+              viol(run, "C18", "second-truncate-effect", format!("[{:?} start {} history {} ; truncate({}) ; allocations ; truncate({})] result ok={} state {:?} -> {:?}, capacity {}, first changed byte {:?}", cfg, st.name, word_str(&word), nn, n2, res2.is_ok(), pre2, post2, arena2.capacity(), at), case.clone());
+            }
+            drop(arena2);
+            if let Some(p) = path2 {
+              let _ = std::fs::remove_file(p);
             }
             run.nontrivial.insert(hash_of(&(cfg, &st.name, &word, nn)));
           }
